@@ -31,6 +31,9 @@ def gen_image(rng, n, arch=None, small_identity=False):
         "unified": unified,
         "additional_variants": subset(rng, VARIANTS, 0, 3) if unified else [],
     }
+    if rng.random() < 0.08:
+        # legal, not normal-form paths: kept verbatim
+        img["path"] = pick(rng, ["%s//x-%d.iso", "./%s/x-%d.iso", "%s/d/../x-%d.iso", "%s/dir-%d/", "%s/./x-%d.iso"]) % (pick(rng, VARIANTS), n)
     if rng.random() < 0.15:
         # digests as some tools print them (upper case), an algorithm name in another spelling: kept verbatim
         img["checksums"] = dict(((t.upper() if rng.random() < 0.3 else t), v.upper()) for t, v in img["checksums"].items())
@@ -139,10 +142,17 @@ def build_ops(K, rng, slot=0, version="1.2", permute=True, iid_base=0):
     order = list(range(len(K["imgs"])))
     if permute:
         rng.shuffle(order)
+    renamed = None
+    if K["cells"] and permute and rng.random() < 0.15:
+        renamed = pick(rng, K["cells"])[2]       # this image is filed under a provisional name, renamed, and filed again
     for i in order:
         o = {"op": "img_new", "iid": iid_base + i, "attrs": dict(K["imgs"][i])}
+        if i == renamed:
+            o["attrs"]["path"] = "incoming/upload-%d.part" % i
         if rng.random() < 0.3:
             o["inplace"] = [f for f in ("checksums", "additional_variants") if rng.random() < 0.7]
+        elif permute and len(K["imgs"][i].get("checksums") or {}) > 1 and rng.random() < 0.3:
+            o["ck_order"] = rng.randrange(1 << 30)       # the caller's mapping is an OrderedDict filled in this order
         o.update(sl)
         ops.append(o)
     cells = list(K["cells"])
@@ -152,6 +162,15 @@ def build_ops(K, rng, slot=0, version="1.2", permute=True, iid_base=0):
         o = {"op": "img_add", "variant": variant, "arch": arch, "iid": iid_base + i}
         o.update(sl)
         ops.append(o)
+    if renamed is not None:
+        o = {"op": "img_set", "iid": iid_base + renamed, "field": "path", "value": K["imgs"][renamed]["path"]}
+        o.update(sl)
+        ops.append(o)
+        for variant, arch, i in cells:
+            if i == renamed:
+                o = {"op": "img_add", "variant": variant, "arch": arch, "iid": iid_base + i}      # the same object, the same cell: nothing to do
+                o.update(sl)
+                ops.append(o)
     if K["imgs"] and rng.random() < 0.15:
         # an image object is filed while still blank and filled in afterwards (its place in the cell must not depend
         # on what it held at the moment of add())
